@@ -4,6 +4,7 @@
 # SPDX-License-Identifier: Apache-2.0
 import array
 import functools
+import inspect
 import itertools
 import math
 import warnings
@@ -379,8 +380,13 @@ def wrap_shapely(method):
     on :py:class:`odc.geo.geom.Geometry` objects that carry their CRSs.
     """
 
+    sig = inspect.signature(method)
+
     @functools.wraps(method, assigned=("__doc__",))
-    def wrapped(*args):
+    def wrapped(*args, **kwargs):
+        if kwargs:
+            # operand passed by its declared name: ``a.union(other=b)``
+            args = sig.bind(*args, **kwargs).args
         first = args[0]
         for arg in args[1:]:
             if first.crs != arg.crs:
